@@ -4,6 +4,8 @@ import (
 	"context"
 	"encoding/json"
 	"fmt"
+	mbig "math/big"
+	"net/http"
 	"sort"
 	"strings"
 	"sync"
@@ -37,6 +39,62 @@ type tpl struct {
 	Direct   func(b map[string]any) string `json:"-"`
 }
 
+// Whole numbers outside the int64 range. The run-query HTTP handler decodes the request
+// body without UseNumber, so a numeric variable bound by the caller reaches RunQuery as
+// a float64; every value below is exactly representable as a float64, so the binding
+// the caller wrote, the float64 the handler decodes and the integer of the equivalent
+// direct query are one and the same number.
+const (
+	tenTo20 = "100000000000000000000" // 10^20 > 2^64
+	two63   = "9223372036854775808"   // 2^63 = MaxInt64+1
+)
+
+// whole is a numeric binding written as a plain JSON integer of any magnitude.
+func whole(s string) json.Number { return json.Number(s) }
+
+// sci is a numeric binding the caller writes in exponent notation (Sent), which JSON
+// allows for any number; Exact is the same whole number in plain digits, which is what
+// the direct query's filter carries.
+type sci struct{ Sent, Exact string }
+
+func (s sci) MarshalJSON() ([]byte, error) { return []byte(s.Sent), nil }
+
+// wholeBound returns the exact value of a numeric binding written as JSON text (nil for
+// the small Go ints of the original menus and for non-numeric bindings).
+func wholeBound(v any) *mbig.Int {
+	var txt string
+	switch x := v.(type) {
+	case json.Number:
+		txt = string(x)
+	case sci:
+		txt = x.Exact
+	default:
+		return nil
+	}
+	n, ok := new(mbig.Int).SetString(txt, 10)
+	if !ok {
+		panic("harness: numeric binding " + txt)
+	}
+	return n
+}
+
+// bigBound returns the exact value of a numeric binding whose magnitude is at least 2^63
+// (nil otherwise).
+func bigBound(v any) *mbig.Int {
+	n := wholeBound(v)
+	if n == nil || new(mbig.Int).Abs(n).Cmp(new(mbig.Int).Lsh(mbig.NewInt(1), 63)) < 0 {
+		return nil
+	}
+	return n
+}
+
+// nearestFloat64 is the whole number the float64 nearest to v stands for.
+func nearestFloat64(v *mbig.Int) *mbig.Int {
+	f, _ := new(mbig.Float).SetInt(v).Float64()
+	n, _ := new(mbig.Float).SetFloat64(f).Int(nil)
+	return n
+}
+
 func tieJSON() string { return tieInstant().UTC().Format(time.RFC3339Nano) }
 
 func js(v any) string {
@@ -50,7 +108,9 @@ func js(v any) string {
 // templates is the fixed template set: all four resources, every variable type
 // (string with interpolation, int, boolean, date), defaults, $in lists, $exists, nested
 // connectives, and template-level params (pageSize, sort, endTime, startTime, expand,
-// groupBy, insertionDate).
+// groupBy, insertionDate). Every int variable is also bound to whole numbers outside the
+// int64 range (whole(...), sci{...}): the request body is decoded as the HTTP handler
+// decodes it, so they reach RunQuery as float64.
 func templates() []*tpl {
 	unbound := any(nil)
 	return []*tpl{
@@ -69,7 +129,7 @@ func templates() []*tpl {
 			Body:     `{"$and":[{"$gte":{"timestamp":"${since}"}},{"$gte":{"id":"${minid}"}}]}`,
 			Defaults: map[string]any{"minid": 1},
 			Menu: map[string][]any{"since": {lx.Base.Add(-2 * time.Hour).Format(time.RFC3339Nano), lx.Base.Add(time.Second).Format(time.RFC3339Nano)},
-				"minid": {unbound, 3}},
+				"minid": {unbound, 3, whole(two63)}},
 			Direct: func(b map[string]any) string {
 				return fmt.Sprintf(`{"$and":[{"$gte":{"timestamp":%s}},{"$gte":{"id":%s}}]}`, js(b["since"]), js(b["minid"]))
 			}},
@@ -98,7 +158,7 @@ func templates() []*tpl {
 			Vars:     `{"min":"int","seg":{"type":"string","default":"b"}}`,
 			Body:     `{"$and":[{"$gt":{"balance[USD]":"${min}"}},{"$not":{"$match":{"address":"a:${seg}:"}}}]}`,
 			Defaults: map[string]any{"seg": "b"},
-			Menu:     map[string][]any{"min": {0, 30, -1000}, "seg": {unbound, "x"}},
+			Menu:     map[string][]any{"min": {0, 30, -1000, whole(tenTo20), whole("-" + tenTo20), whole(two63), whole("9007199254740993")}, "seg": {unbound, "x"}},
 			Direct: func(b map[string]any) string {
 				return fmt.Sprintf(`{"$and":[{"$gt":{"balance[USD]":%s}},{"$not":{"$match":{"address":%s}}}]}`, js(b["min"]), js("a:"+fmt.Sprint(b["seg"])+":"))
 			}},
@@ -116,7 +176,7 @@ func templates() []*tpl {
 			Vars:     `{"from":"int","kind":{"type":"string","default":"NEW_TRANSACTION"}}`,
 			Body:     `{"$and":[{"$gte":{"id":"${from}"}},{"$match":{"type":"${kind}"}}]}`,
 			Defaults: map[string]any{"kind": "NEW_TRANSACTION"},
-			Menu:     map[string][]any{"from": {1, 3}, "kind": {unbound, "SET_METADATA"}},
+			Menu:     map[string][]any{"from": {1, 3, whole(two63)}, "kind": {unbound, "SET_METADATA"}},
 			Direct: func(b map[string]any) string {
 				return fmt.Sprintf(`{"$and":[{"$gte":{"id":%s}},{"$match":{"type":%s}}]}`, js(b["from"]), js(b["kind"]))
 			}},
@@ -137,11 +197,32 @@ func templates() []*tpl {
 			Vars:     `{"min":{"type":"int","default":0}}`,
 			Body:     `{"$or":[{"$gte":{"balance[USD]":"${min}"}},{"$match":{"metadata[role]":"r"}}]}`,
 			Defaults: map[string]any{"min": 0},
-			Menu:     map[string][]any{"min": {unbound, 40, -5}},
+			Menu:     map[string][]any{"min": {unbound, 40, -5, whole(two63), sci{Sent: "1e20", Exact: tenTo20}, sci{Sent: "-1E+20", Exact: "-" + tenTo20}}},
 			Direct: func(b map[string]any) string {
 				return fmt.Sprintf(`{"$or":[{"$gte":{"balance[USD]":%s}},{"$match":{"metadata[role]":"r"}}]}`, js(b["min"]))
 			}},
 	}
+}
+
+// hugeHistory is the history whose USD balances lie outside the int64 range on both
+// sides, so that a numeric variable bound to ±10^20 or 2^63 selects some but not all
+// accounts: big:a 2·10^20 (3·10^20 received, 10^20 sent on to big:e), big:e 10^20, big:b
+// 5·10^19, big:c and big:d 10^19 (all ≥ 2^63), a and a:b small, od −10^19 (> −10^20),
+// od2 −12, world −3.6·10^20 (< −10^20). Every amount and
+// every running total is a short decimal (at most two significant digits followed by
+// zeros): see REPORT.md — the run-query HTTP response re-encodes numbers through float64.
+func hugeHistory() *History {
+	return &History{Name: "huge", Ops: []lx.Op{
+		/* tx1 */ post(nil, "r1", md("k", "v"), p("world", "big:a", "USD", "300000000000000000000")),
+		/* tx2 */ post(nil, "", md("k", "w"), p("world", "big:b", "USD", "50000000000000000000")),
+		/* tx3 */ post(nil, "", nil, p("world", "big:c", "USD", "10000000000000000000")),
+		/* tx4 */ {Kind: "script", Script: "send [USD 10000000000000000000] (\n source = @od allowing unbounded overdraft\n destination = @big:d\n)\nset_account_meta(@big:d, \"role\", \"r\")"},
+		/* tx5 */ {Kind: "script", Script: "send [USD 12] (\n source = @od2 allowing unbounded overdraft\n destination = {\n 7/12 to @a\n remaining to @a:b\n }\n)\nset_tx_meta(\"m\", \"y\")"},
+		{Kind: "accmeta", Address: "a", Meta: md("role", "q")},
+		/* tx6 */ post(lx.TS(60*sec), "r2", nil, p("big:a", "big:e", "USD", "100000000000000000000")),
+		// 2^53+1: neither this balance nor a variable bound to it survives a float64
+		post(nil, "", nil, p("world", "p:y", "USD", "9007199254740993")),
+	}}
 }
 
 func schemaJSON(ts []*tpl) string {
@@ -532,6 +613,9 @@ func bindings(t *tpl) (sent, full []map[string]any) {
 				}
 				if val != nil {
 					s2[n], f2[n] = val, val
+					if sc, ok := val.(sci); ok {
+						f2[n] = json.Number(sc.Exact)
+					}
 				}
 				ns, nf = append(ns, s2), append(nf, f2)
 			}
@@ -660,11 +744,109 @@ func diagnoseReset(ctx context.Context, s *site, cs *c37Case, eff effParams, qb 
 	return best
 }
 
+// int64Images are the values a whole number outside the int64 range turns into when it
+// is squeezed through an int64 (or dropped): the hypotheses diagnoseNumeric tests, and
+// the neighbours the vacuity guard requires the results to be distinguishable from.
+func int64Images(v *mbig.Int) map[string]string {
+	wrapped := new(mbig.Int).And(v, new(mbig.Int).SetUint64(^uint64(0))) // v mod 2^64 …
+	if wrapped.Bit(63) == 1 {                                            // … read as a signed 64-bit integer
+		wrapped.Sub(wrapped, new(mbig.Int).Lsh(mbig.NewInt(1), 64))
+	}
+	return map[string]string{
+		"min-int64":     "-9223372036854775808",
+		"max-int64":     "9223372036854775807",
+		"wrapped-int64": wrapped.String(),
+		"zero":          "0",
+	}
+}
+
+var imageOrder = []string{"min-int64", "max-int64", "wrapped-int64", "zero"}
+
+// withVar is the direct filter of the case with variable n bound to the integer txt.
+func (cs *c37Case) withVar(n, txt string) func() query.Builder {
+	f2 := map[string]any{}
+	for k, v := range cs.full {
+		f2[k] = v
+	}
+	f2[n] = json.Number(txt)
+	return func() query.Builder {
+		b, err := query.ParseJSON(cs.t.Direct(f2))
+		if err != nil {
+			panic(err)
+		}
+		return b
+	}
+}
+
+// bigVars lists the variables the caller binds to a whole number of magnitude ≥ 2^63.
+func (cs *c37Case) bigVars() (names []string, vals []*mbig.Int) {
+	for n, v := range cs.bind {
+		if bigBound(v) != nil {
+			names = append(names, n)
+		}
+	}
+	sort.Strings(names)
+	for _, n := range names {
+		vals = append(vals, bigBound(cs.bind[n]))
+	}
+	return
+}
+
+// diagnoseNumeric explains a difference by the hypothesis «the numeric variable n was
+// substituted as another number»: the float64 nearest to it (when that is another
+// number) or, for a whole number outside the int64 range, one of its int64 images. It
+// re-runs the direct query with n replaced by each candidate and returns the variable,
+// its class, the first candidate that reproduces exactly what RunQuery returned and that
+// candidate's value ("" when none does).
+func diagnoseNumeric(ctx context.Context, s *site, cs *c37Case, eff effParams, got walk) (name, class, image, value string) {
+	var names []string
+	for n, v := range cs.bind {
+		if wholeBound(v) != nil {
+			names = append(names, n)
+		}
+	}
+	sort.Strings(names)
+	for _, n := range names {
+		v := wholeBound(cs.bind[n])
+		var labels []string
+		imgs := map[string]string{}
+		class = "beyond-float64-precision"
+		if f := nearestFloat64(v); f.Cmp(v) != 0 {
+			labels, imgs["nearest-float64"] = append(labels, "nearest-float64"), f.String()
+		}
+		if bigBound(cs.bind[n]) != nil {
+			class = "positive-beyond-int64"
+			if v.Sign() < 0 {
+				class = "negative-beyond-int64"
+			}
+			labels = append(labels, imageOrder...)
+			for k, x := range int64Images(v) {
+				imgs[k] = x
+			}
+		}
+		for _, label := range labels {
+			w, err := walkDirect(ctx, s.Ctrl, cs.t.Resource, eff, cs.withVar(n, imgs[label])(), cs.cfg)
+			if err != nil {
+				continue
+			}
+			if d, _ := compareWalks(got, w); d < 0 {
+				return n, class, label, imgs[label]
+			}
+		}
+	}
+	return "", "", "", ""
+}
+
+func bigNamesOf(cs *c37Case) []string {
+	n, _ := cs.bigVars()
+	return n
+}
+
 func runC37() int {
 	r := ev.Start("C37", ev.LevelExploration, 120*time.Second, 15*time.Minute)
 	ctx := context.Background()
 	ts := templates()
-	hs := histories()
+	hs := append(histories(), hugeHistory())
 	for _, h := range hs {
 		h.Ops = append(h.Ops, lx.Op{Kind: "schema", Schema: schemaVersion, SchemaData: schemaJSON(ts)})
 	}
@@ -706,6 +888,14 @@ func runC37() int {
 		}
 	}
 	var evaluations, followed, nontrivial, multiPage, previousFollowed, overrideSame, keptUnderRequest atomic.Int64
+	var httpCases, httpPages, httpMultiPage, httpBigNumbers, httpBigCases atomic.Int64
+	var bigCases, bigNontrivialPos, bigNontrivialNeg, sciCases atomic.Int64
+	// "<sign>|<image>" (and the same with the template id appended) -> true once some
+	// passing case binds a numeric variable to a whole number of that sign outside the
+	// int64 range and the direct query with that int64 image substituted instead returns
+	// other pages: a RunQuery squeezing the variable through an int64 cannot pass that case
+	bigBearing := sync.Map{}
+	bigPerTpl := sync.Map{} // template id -> *atomic.Int64
 	ntKeys := sync.Map{}
 	// load-bearing parameters: "template|<field>" / "request|<field>" (and the same
 	// with the template id appended) -> true once some passing case was observed in
@@ -726,6 +916,7 @@ func runC37() int {
 		go func() {
 			defer wg.Done()
 			sites := map[int]*site{}
+			routers := map[string]http.Handler{}
 			totals := map[string]int{}
 			defer func() {
 				for _, s := range sites {
@@ -835,6 +1026,12 @@ func runC37() int {
 					}
 					what := fmt.Sprintf("page %d differs (%s): RunQuery %s; direct %s", pi+1, d, gp.brief(), wp.brief())
 					extra := map[string]any{"differingPage": pi + 1, "runQuery": gp, "direct": wp}
+					if n, class, img, val := diagnoseNumeric(ctx, s, cs, eff, got); n != "" {
+						// a mis-converted numeric variable is a defect of the shared variable
+						// substitution, not of one resource or template
+						report("numeric-var", fmt.Sprintf("%s:substituted-as-%s", class, img), fmt.Sprintf("variable %s=%s (decoded from the request body as a float64) is substituted as %s: the result equals the direct query with that value; %s", n, js(cs.bind[n]), val, what), extra)
+						continue
+					}
 					if lost := diagnoseReset(ctx, s, cs, eff, qb, got); lost != nil {
 						// one violation per lost parameter: each is its own line of Overwrite
 						for _, f := range lost {
@@ -867,6 +1064,77 @@ func runC37() int {
 						violation("cursor:previous:"+d, fmt.Sprintf("previous page differs (%s): RunQuery %s; direct %s", d, g2.brief(), w2.brief()), map[string]any{"runQuery": g2, "direct": w2})
 						continue
 					}
+				}
+				// the same comparison between the two HTTP routes a client calls
+				rk := fmt.Sprintf("%d|%s", j.hi, cs.cfgN)
+				router := routers[rk]
+				if router == nil {
+					router = newRouter(s.W, cs.cfg)
+					routers[rk] = router
+				}
+				hst := &httpStats{}
+				hg, herr := httpRunWalk(router, t.ID, js(body), hst)
+				var hw *httpWalk
+				if herr == nil {
+					hw, herr = httpListWalk(router, t.Resource, eff, t.Direct(cs.full))
+				}
+				if herr != nil {
+					r.EngineError(fmt.Sprintf("%v: http leg: %v", desc, herr))
+					return
+				}
+				httpCases.Add(1)
+				httpPages.Add(int64(len(hg.Exact)))
+				httpBigNumbers.Add(int64(hst.bigNumbers))
+				if len(hg.Exact) > 1 {
+					httpMultiPage.Add(1)
+				}
+				httpReq := map[string]any{"run": "POST /v2/" + ledgerName + "/queries/" + t.ID + "/run?schemaVersion=" + schemaVersion + " " + js(body), "list": "GET " + listTarget(t.Resource, eff, t.Direct(cs.full))}
+				switch {
+				case (hg.Err != nil) != (hw.Err != nil) || (hg.Err != nil && len(hg.Exact) != len(hw.Exact)):
+					eg, ew := "none", "none"
+					if hg.Err != nil {
+						eg = hg.Err.brief()
+					}
+					if hw.Err != nil {
+						ew = hw.Err.brief()
+					}
+					report("http", "error-mismatch", fmt.Sprintf("after %d/%d pages the run-query route answers %s, the list route %s", len(hg.Exact), len(hw.Exact), eg, ew), httpReq)
+					continue
+				case hg.Err != nil:
+					if hg.Err.Status != hw.Err.Status || errorCode(hg.Err.Body) != errorCode(hw.Err.Body) {
+						report("http", "error-class", fmt.Sprintf("the run-query route answers %s, the list route %s", hg.Err.brief(), hw.Err.brief()), httpReq)
+					}
+					continue
+				}
+				if hg.Resource != t.Resource {
+					report("http", "resource-kind", fmt.Sprintf("the run-query response says resource %q", hg.Resource), httpReq)
+					continue
+				}
+				if pi, d := compareWalks(hg.Exact, hw.Exact); d != "" {
+					phase := "first-page"
+					if pi > 0 {
+						phase = "cursor"
+					}
+					var gp, wp *page
+					if pi < len(hg.Exact) {
+						gp = hg.Exact[pi]
+					}
+					if pi < len(hw.Exact) {
+						wp = hw.Exact[pi]
+					}
+					httpReq["differingPage"], httpReq["runQuery"], httpReq["direct"] = pi+1, gp, wp
+					what := fmt.Sprintf("over HTTP, page %d differs (%s): run-query route %s; list route %s", pi+1, d, gp.brief(), wp.brief())
+					if li, _ := compareWalks(hg.Lossy, hw.Lossy); li < 0 {
+						// identical once every number is rounded to a float64: the entities are
+						// the same, numbers lost precision in one of the two responses
+						report("http", "response-number-precision", "the two responses differ only by float64 rounding of numbers; "+what, httpReq)
+					} else {
+						report("http", fmt.Sprintf("%s:%s:%s:%s", t.Resource, t.ID, phase, d), what, httpReq)
+					}
+					continue
+				}
+				if len(bigNamesOf(cs)) > 0 {
+					httpBigCases.Add(1)
 				}
 				// measure what this (passing) case was able to detect: for every field of
 				// the template layer that the request does not mention, and every field of
@@ -907,6 +1175,30 @@ func runC37() int {
 				for _, k := range reqKeys {
 					probe("request", k, t.Params, dropKey(cs.ov, k))
 				}
+				// measure what this (passing) case says about numeric variables outside the
+				// int64 range: would substituting an int64 image have changed the pages?
+				bigNames, bigVals := cs.bigVars()
+				for i, n := range bigNames {
+					sign := "positive"
+					if bigVals[i].Sign() < 0 {
+						sign = "negative"
+					}
+					imgs := int64Images(bigVals[i])
+					for _, label := range imageOrder {
+						gk, tk := sign+"|"+label, sign+"|"+label+"|"+t.ID
+						if _, ok := bigBearing.Load(tk); ok {
+							continue
+						}
+						w2, err := walkDirect(ctx, s.Ctrl, t.Resource, eff, cs.withVar(n, imgs[label])(), cs.cfg)
+						if err != nil {
+							continue
+						}
+						if d, _ := compareWalks(want, w2); d >= 0 {
+							bigBearing.Store(gk, true)
+							bigBearing.Store(tk, true)
+						}
+					}
+				}
 				// measure non-triviality: some but not all entities of the resource
 				allKey := fmt.Sprintf("%d|%s|%v|%v|%d|%v", j.hi, t.Resource, eff.PIT, eff.OOT, eff.GroupBy, eff.Insertion)
 				all, okc := totals[allKey]
@@ -931,6 +1223,23 @@ func runC37() int {
 				mu.Unlock()
 				if pages > 1 {
 					multiPage.Add(1)
+				}
+				if len(bigNames) > 0 {
+					bigCases.Add(1)
+					c, _ := bigPerTpl.LoadOrStore(t.ID, new(atomic.Int64))
+					c.(*atomic.Int64).Add(1)
+					for _, n := range bigNames {
+						if _, ok := cs.bind[n].(sci); ok {
+							sciCases.Add(1)
+						}
+					}
+					if total > 0 && total < all {
+						if bigVals[0].Sign() > 0 {
+							bigNontrivialPos.Add(1)
+						} else {
+							bigNontrivialNeg.Add(1)
+						}
+					}
 				}
 				if total > 0 && (total < all || pages > 1) {
 					key := fmt.Sprintf("%s|%s|%s|%s", t.ID, js(cs.bind), cs.ov, cs.cfgN)
@@ -958,6 +1267,9 @@ func runC37() int {
 	var bearingKeys []string
 	bearing.Range(func(k, _ any) bool { bearingKeys = append(bearingKeys, k.(string)); return true })
 	sort.Strings(bearingKeys)
+	var bigBearingKeys []string
+	bigBearing.Range(func(k, _ any) bool { bigBearingKeys = append(bigBearingKeys, k.(string)); return true })
+	sort.Strings(bigBearingKeys)
 	if exhaustive && r.ViolationCount() == 0 && !r.HasEngineError() {
 		has := func(k string) bool { _, ok := bearing.Load(k); return ok }
 		// every parameter kind the statement's «template parameters overridden by the
@@ -988,26 +1300,65 @@ func runC37() int {
 		if overrideSame.Load() == 0 || keptUnderRequest.Load() == 0 {
 			r.EngineError(fmt.Sprintf("vacuous: request overriding a field the template sets: %d cases; template field surviving a request that sets other fields: %d cases", overrideSame.Load(), keptUnderRequest.Load()))
 		}
+		// numeric variables bound to whole numbers outside the int64 range: both signs must
+		// have selected some-but-not-all entities, and for both signs each int64 image
+		// (saturation to either end, two's-complement wrap, zero) must have been
+		// distinguishable from the exact value in some passing case
+		hasBig := func(k string) bool { _, ok := bigBearing.Load(k); return ok }
+		for _, sign := range []string{"positive", "negative"} {
+			for _, label := range imageOrder {
+				if !hasBig(sign + "|" + label) {
+					r.EngineError("vacuous: no passing case in which a " + sign + " numeric variable beyond the int64 range gives other pages than its image " + label + " (a RunQuery converting it through an int64 that way would go unnoticed)")
+				}
+			}
+		}
+		if bigNontrivialPos.Load() == 0 || bigNontrivialNeg.Load() == 0 || sciCases.Load() == 0 {
+			r.EngineError(fmt.Sprintf("vacuous: numeric variables beyond the int64 range selecting some but not all entities: %d positive, %d negative cases; bound in exponent notation: %d cases", bigNontrivialPos.Load(), bigNontrivialNeg.Load(), sciCases.Load()))
+		}
+		for _, t := range ts {
+			for n, vals := range t.Menu {
+				for _, v := range vals {
+					if bigBound(v) == nil {
+						continue
+					}
+					if c, ok := bigPerTpl.Load(t.ID); !ok || c.(*atomic.Int64).Load() == 0 {
+						r.EngineError("vacuous: template " + t.ID + " declares the out-of-int64 binding " + n + "=" + js(v) + " but no case with it passed")
+					}
+				}
+			}
+		}
+		if httpCases.Load() != evaluations.Load() || httpMultiPage.Load() == 0 || httpBigNumbers.Load() == 0 || httpBigCases.Load() == 0 {
+			r.EngineError(fmt.Sprintf("vacuous: HTTP leg ran for %d of %d cases, %d multi-page, %d with a numeric variable beyond the int64 range, %d numbers of magnitude ≥ 2^63 in run-query responses", httpCases.Load(), evaluations.Load(), httpMultiPage.Load(), httpBigCases.Load(), httpBigNumbers.Load()))
+		}
 		if multiPage.Load() == 0 || previousFollowed.Load() == 0 {
 			r.EngineError(fmt.Sprintf("vacuous: multi-page runs %d, previous cursors followed %d", multiPage.Load(), previousFollowed.Load()))
 		}
 	}
 	return r.Finish(ev.Coverage{
-		"load_bearing_params":               bearingKeys,
-		"request_overrides_template_field":  overrideSame.Load(),
-		"template_field_kept_under_request": keptUnderRequest.Load(),
-		"previous_cursors_followed":         previousFollowed.Load(),
-		"evaluations":                       evaluations.Load(),
-		"distinct_nontrivial":               nontrivial.Load(),
-		"cursor_steps":                      followed.Load(),
-		"multi_page_runs":                   multiPage.Load(),
-		"templates":                         len(ts),
-		"cases_per_history":                 len(cases),
-		"per_template":                      per,
-		"rule":                              "a schema with 11 query templates (transactions ×4, accounts ×3, logs ×2, volumes ×2; string variables with ${…} interpolation, int, boolean and date variables, declared defaults, $in lists, $exists, $and/$or/$not bodies; template params pageSize, sort, endTime, expand, groupBy, insertionDate) is inserted through the real InsertSchema path at the end of each of 3 histories; then RunQuery is called for EVERY combination of the variable menus (each variable: 2–3 values, or left unbound when it has a default) × EVERY entry of the request-params menu (none, {}, pageSize, sort column/order, endTime, startTime, expand (a list, or the empty list that clears the template's), groupBy, insertionDate, a combination; thorough: also the union of every two entries on disjoint parameters) × two pagination configurations (default 15/max 100; default 4/max 10). Oracle: first page (entities with all expanded fields, page size, hasMore, presence of cursors) equals the direct List* call built by hand from the substituted filter and from defaults ⊕ template params ⊕ request params applied field by field; every page reached through the returned next cursors (and the previous cursor of the last page) equals the page reached through the direct call's cursors. Vacuity guards (measured on passing cases): every template returns data and needs a second page at least once; for each of pageSize, sort, endTime, expand, groupBy set by a TEMPLATE and each of pageSize, sort, endTime, startTime, expand, groupBy, insertionDate set by a REQUEST there is a case in which removing that field from that layer changes the direct query's pages (load_bearing_params), so an implementation ignoring it cannot pass; requests override template-set fields and leave other template-set fields in force; previous cursors are followed. distinct_nontrivial = distinct (template, binding, request params, config) whose result is non-empty and either a proper subset of the resource or multi-page, on some history",
-		"samples":                           samples.List(),
-		"exhaustive":                        exhaustive,
-	}, []string{pgsimAssumption,
+		"load_bearing_params":                bearingKeys,
+		"http_cases":                         httpCases.Load(),
+		"http_pages":                         httpPages.Load(),
+		"http_multi_page_runs":               httpMultiPage.Load(),
+		"http_cases_numeric_beyond_int64":    httpBigCases.Load(),
+		"http_response_numbers_beyond_int64": httpBigNumbers.Load(),
+		"numeric_beyond_int64_cases":         bigCases.Load(),
+		"numeric_beyond_int64_nontrivial":    map[string]int64{"positive": bigNontrivialPos.Load(), "negative": bigNontrivialNeg.Load()},
+		"numeric_exponent_notation_cases":    sciCases.Load(),
+		"numeric_beyond_int64_load_bearing":  bigBearingKeys,
+		"request_overrides_template_field":   overrideSame.Load(),
+		"template_field_kept_under_request":  keptUnderRequest.Load(),
+		"previous_cursors_followed":          previousFollowed.Load(),
+		"evaluations":                        evaluations.Load(),
+		"distinct_nontrivial":                nontrivial.Load(),
+		"cursor_steps":                       followed.Load(),
+		"multi_page_runs":                    multiPage.Load(),
+		"templates":                          len(ts),
+		"cases_per_history":                  len(cases),
+		"per_template":                       per,
+		"rule":                               "a schema with 11 query templates (transactions ×4, accounts ×3, logs ×2, volumes ×2; string variables with ${…} interpolation, int, boolean and date variables, declared defaults, $in lists, $exists, $and/$or/$not bodies; template params pageSize, sort, endTime, expand, groupBy, insertionDate) is inserted through the real InsertSchema path at the end of each of 4 histories (the fourth, «huge», holds USD balances outside the int64 range on both sides: 2·10^20 … 10^19 ≥ 2^63, −10^19, −3.6·10^20); then RunQuery is called — with the request body decoded exactly as the HTTP handler decodes it (encoding/json without UseNumber: numeric variables arrive as float64) — for EVERY combination of the variable menus (each variable: 2–6 values, or left unbound when it has a default; every int variable is also bound to whole numbers outside the int64 range: 2^63 for transaction/log ids, ±10^20 and 2^63 for balances, in plain digits and in exponent notation 1e20 / -1E+20, all exactly representable as float64 so that the number the caller wrote, the float64 the handler sees and the integer of the direct query are the same number) × EVERY entry of the request-params menu (none, {}, pageSize, sort column/order, endTime, startTime, expand (a list, or the empty list that clears the template's), groupBy, insertionDate, a combination; thorough: also the union of every two entries on disjoint parameters) × two pagination configurations (default 15/max 100; default 4/max 10). Oracle: first page (entities with all expanded fields, page size, hasMore, presence of cursors) equals the direct List* call built by hand from the substituted filter and from defaults ⊕ template params ⊕ request params applied field by field; every page reached through the returned next cursors (and the previous cursor of the last page) equals the page reached through the direct call's cursors. HTTP leg, for every case that passes: the same comparison between the two routes a client calls, served by the real api.NewRouter configured with the case's pagination configuration — POST /v2/l1/queries/{id}/run?schemaVersion=v1 (and its cursors through the same route) against GET /v2/l1/{transactions|accounts|logs|volumes} with the substituted filter in ?query= and the effective parameters in the query string (and its cursors through ?cursor=); entities are compared as JSON documents with every number taken at its exact value (volumes, balances and amounts included), plus status/errorCode and the «resource» member. A difference that a numeric variable substituted as the nearest float64 or as an int64 image (saturation to MinInt64/MaxInt64, two's-complement wrap, zero) reproduces exactly is reported under the shared signature C37:numeric-var:<class>:substituted-as-<image>; HTTP responses that differ only by float64 rounding of numbers under C37:http:response-number-precision. Vacuity guards (measured on passing cases): every template returns data and needs a second page at least once; for each of pageSize, sort, endTime, expand, groupBy set by a TEMPLATE and each of pageSize, sort, endTime, startTime, expand, groupBy, insertionDate set by a REQUEST there is a case in which removing that field from that layer changes the direct query's pages (load_bearing_params), so an implementation ignoring it cannot pass; requests override template-set fields and leave other template-set fields in force; previous cursors are followed; numeric variables beyond the int64 range: for each sign some passing case selects some but not all entities (numeric_beyond_int64_nontrivial), for each sign and each int64 image some passing case in which the direct query with that image substituted returns other pages (numeric_beyond_int64_load_bearing), every template that declares such a binding passes with it, exponent notation is exercised; the HTTP leg ran for every case, followed cursors, and run-query responses carried numbers of magnitude ≥ 2^63 (http_response_numbers_beyond_int64). distinct_nontrivial = distinct (template, binding, request params, config) whose result is non-empty and either a proper subset of the resource or multi-page, on some history",
+		"samples":                            samples.List(),
+		"exhaustive":                         exhaustive,
+	}, []string{pgsimAssumption, httpAssumptionC37,
 		"«template parameters overridden by the request parameters» is read field-wise: a request that does not mention a parameter leaves the template's (or default) value in force"})
 }
 
